@@ -46,6 +46,12 @@ def strategy(draw):
         d, o = draw(st.sampled_from([(0, 1), (1, 0), (nsamp - 1, 0)]))
         if d != o:
             ped = [samples[d], samples[o]]
+            if nsamp == 3 and draw(st.booleans()):
+                # two declared pairs sharing one normal, in either declaration order
+                third = [x for x in range(3) if x not in (d, o)][0]
+                ped = [[samples[d], samples[o]], [samples[third], samples[o]]]
+                if draw(st.booleans()):
+                    ped.reverse()
     fmt_ad = draw(st.integers(0, 7)) > 0
     fmt_dp = draw(st.integers(0, 3)) > 0
     nrec = draw(st.one_of(st.integers(0, 8), st.integers(0, 60)))
@@ -109,6 +115,16 @@ def strategy(draw):
             "purity": draw(st.sampled_from([None, 0.5, 0.8]))}
 
 
+def ped_pairs(case):
+    """Declared PEDIGREE pairs in declaration order: [(derived, original), ...]"""
+    p = case["pedigree"]
+    if not p:
+        return []
+    if isinstance(p[0], str):
+        return [tuple(p)]
+    return [tuple(x) for x in p]
+
+
 # ------------------------------------------------------------------ rendering
 def vcf_text(case):
     L = ["##fileformat=VCFv4.2", '##FILTER=<ID=q10,Description="Quality below 10">']
@@ -120,8 +136,8 @@ def vcf_text(case):
         L.append('##FORMAT=<ID=AD,Number=R,Type=Integer,Description="Allelic depths">')
     if case["fmt_dp"]:
         L.append('##FORMAT=<ID=DP,Number=1,Type=Integer,Description="Read depth">')
-    if case["pedigree"]:
-        L.append(f"##PEDIGREE=<Derived={case['pedigree'][0]},Original={case['pedigree'][1]}>")
+    for d, o in ped_pairs(case):
+        L.append(f"##PEDIGREE=<Derived={d},Original={o}>")
     L.append("#CHROM\tPOS\tID\tREF\tALT\tQUAL\tFILTER\tINFO\tFORMAT\t" + "\t".join(case["samples"]))
     fmt = "GT" + (":AD" if case["fmt_ad"] else "") + (":DP" if case["fmt_dp"] else "")
     recs = sorted(case["records"], key=lambda r: (r["c"], r["pos"]))
@@ -148,7 +164,7 @@ def choose(case, sample_id, normal_id):
     if isinstance(normal_id, int):
         normal_id = samples[normal_id]
     if case["pedigree"]:
-        pairs = [tuple(case["pedigree"])]
+        pairs = ped_pairs(case)
     elif normal_id:
         pairs = [(s, normal_id) for s in samples if s != normal_id]
     else:
@@ -218,7 +234,7 @@ def nontrivial(case):
 def classify(case):
     labs = ["samples:%d" % len(case["samples"])]
     if case["pedigree"]:
-        labs.append("pedigree")
+        labs.append("pedigree" if len(ped_pairs(case)) == 1 else "pedigree:2-pairs")
     sid, nid = choose(case, case["sample_id"], case["normal_id"])
     labs.append("paired" if nid else "unpaired")
     if case["sample_id"] is not None:
